@@ -190,6 +190,18 @@ def handle13 (args : List String) : Option String :=
       match cmapAll chain codec with
       | .error e => pure s!"err-{e}"
       | .ok items => pure ("ok " ++ wireList ";" (fun (p : Nat × Nat) => toString p.1 ++ "=" ++ toString p.2) items)
+  | ["useres", dict, ps] => do
+    -- Extract's parent resolution; for a name entry the name is the parent's name, the same
+    -- the PostScript body uses
+    let psName : Option Bool ← match ps with
+      | "none" => some none | "pre" => some (some true) | "other" => some (some false) | _ => none
+    let entry : UseCMapEntry ← match dict with
+      | "none" => some .absent
+      | "name" => some (.name (psName == some true))
+      | "stream" => some .stream
+      | _ => none
+    pure ("ok " ++ match resolveParent entry psName with
+      | .none => "none" | .predefined => "predefined" | .embedded => "embedded")
   | ["next", t, inc] => do
     let t ← textOfWire t
     let inc ← inc.toNat?
